@@ -10,7 +10,7 @@ Require Import Zrs.lib.RsPrelude Zrs.gen.RefTables Zrs.gen.Generated Zrs.model.B
 Require Import Zrs.proofs.C12_Fse.
 Require Import Zrs.model.BitIO Zrs.model.BitStream Zrs.model.SeqEnc Zrs.model.BlockDec Zrs.proofs.C12_Stream Zrs.proofs.C12_SeqStream Zrs.proofs.C12_Predef.
 Require Import Zrs.model.FseEnc Zrs.model.SeqSection Zrs.proofs.C12_Desc Zrs.proofs.C12_Section.
-Require Import Zrs.proofs.C12_SeqStreamR Zrs.proofs.C12_Modes.
+Require Import Zrs.proofs.C12_SeqStreamR Zrs.proofs.C12_Modes Zrs.proofs.C12_AvoidBits.
 Require Import Zrs.model.FseNorm Zrs.proofs.C12_Norm Zrs.proofs.C12_NormTotal Zrs.proofs.C12_TableWf Zrs.proofs.C12_Covers Zrs.proofs.C12_General.
 Open Scope Z_scope.
 
@@ -203,6 +203,29 @@ Example C12_modes_example :
   end.
 Proof. exact modes_example. Qed.
 
+(** where every entry of a built table comes from (a "less than one" slot with the full width, or the k-th state of a
+    symbol of probability p), and its consequence: a distribution in which no probability exceeds half the table size
+    gives a table in which every state carries at least one bit *)
+Theorem C12_general_table_theorem_with_provenance : forall al probs ms,
+  5 <= al <= 9 -> Forall (fun p => -1 <= p) probs -> weight probs = 2 ^ al ->
+  (length probs <= 256)%nat -> Z.of_nat (length probs) <= ms + 1 ->
+  exists D, fse_build_from_probabilities (fse_new ms) al probs = ROk D /\
+    (forall e, In e (t_decode D) -> 0 <= e_bits e <= al /\ 0 <= e_base e /\ e_base e + 2 ^ e_bits e <= 2 ^ al) /\
+    Z.of_nat (length (t_decode D)) = 2 ^ al /\
+    (forall i, (i < length probs)%nat -> nth i probs 0 <> 0 -> covers D (Z.of_nat i)) /\
+    (forall e, In e (t_decode D) -> e_bits e = al \/
+       exists p k, In p probs /\ 1 <= p /\ 0 <= k < p /\ e_bits e = snd (calc_baseline_and_numbits (2 ^ al) p k)).
+Proof. exact general_table_full. Qed.
+
+Theorem C12_half_bounded_distribution_carries_bits : forall al probs ms,
+  5 <= al <= 9 -> Forall (fun p => -1 <= p <= 2 ^ (al - 1)) probs -> weight probs = 2 ^ al ->
+  (length probs <= 256)%nat -> Z.of_nat (length probs) <= ms + 1 ->
+  exists D, fse_build_from_probabilities (fse_new ms) al probs = ROk D /\ entries_carry_a_bit D /\ table_wf D /\
+    (forall i, (i < length probs)%nat -> nth i probs 0 <> 0 -> covers D (Z.of_nat i)).
+Proof. exact half_bounded_distribution_carries_bits. Qed.
+
+Print Assumptions C12_general_table_theorem_with_provenance.
+Print Assumptions C12_half_bounded_distribution_carries_bits.
 Print Assumptions C12_sequences_section_with_any_table_modes.
 Print Assumptions C12_every_mode_is_available.
 Print Assumptions C12_table_description_roundtrip.
